@@ -2,6 +2,7 @@ import Mathlib.Tactic.NormNum
 import Mathlib.Tactic.Push
 import Mathlib.Data.Rat.Defs
 import IndicatifModel.Proofs.EstimatorBridge
+import IndicatifModel.Generated.Funs
 
 /-!
 # C09 — Rate and ETA estimator laws
@@ -122,5 +123,11 @@ theorem C09_reset_forgets {α : Type} (o : Ops α) (e : Est α) (p now : Nat) (c
     rw [h0]
     exact fold_shift o p calls (new o now)
   exact ⟨h, by rw [h]; rfl⟩
+
+/-- **the source as translated**: `estimator_weight(age) = 0.1 ^ (age / 15)` — the base and the weighting period the
+Float instance of the model (`Model/Estimator`, compared bit for bit with the crate) hard-codes are the source's,
+regenerated on every run -/
+theorem C09_source_weight_constants :
+    Generated.estimatorWeightSeconds = 15 ∧ Generated.estimatorWeightBase = (1, 10) := by decide
 
 end IndicatifModel.Estimator
